@@ -56,6 +56,7 @@ fn main() {
         "C11" => vh::props::c11::C11,
         "C12" => vh::props::c12::C12,
         "C13" => vh::props::c13::C13,
+        "C14" => vh::props::c14::C14,
         "C16" => vh::props::c16::C16,
         "C18" => vh::props::c18::C18,
         "C19" => vh::props::c19::C19,
